@@ -31,7 +31,8 @@ warnings.simplefilter("ignore")
 # ---- trace item tags (shared with Model/MainLoop.v, enc_tev) ----
 T_START, T_STOP, T_SETMOUSE, T_HOOK, T_UNHOOK, T_DRAW, T_CLEAR, T_COLSROWS, T_WRITE = 1, 2, 3, 4, 5, 6, 7, 8, 9
 T_FILTER, T_KEYPRESS, T_MOUSE, T_UNHANDLED, T_ALARM, T_PIPE, T_FILE, T_RENDER, T_QUIT = 10, 11, 12, 13, 14, 15, 16, 17, 18
-T_GETINPUT, T_TIMEOUTS, T_PSTART, T_PSTOP, T_WAIT = 19, 20, 21, 22, 23
+T_GETINPUT, T_TIMEOUTS, T_PSTART, T_PSTOP, T_WAIT, T_POPKEY = 19, 20, 21, 22, 23, 24
+KEY_OPEN, KEY_CLOSE = 111, 120      # 'o' opens the pop-up (PopUpLauncher), 'x' typed into the pop-up closes it
 BASE_EXC = 1000       # fault values >= BASE_EXC raise a class derived from BaseException (not Exception)
 
 CTRL_L = 12
@@ -39,12 +40,19 @@ MODES = {1049: "alt", 25: "cursor", 1000: "mouse", 1002: "mouse2", 1006: "mouse6
 SIG_IDS = {"dfl": 0, "ign": 1, "app": 2, "urwid": 3, "other": 4}
 
 
+UP, ESC_KEY = 1001, 1002
+UP_BYTES = b"\x1b[A"          # typed one byte at a time in "frag" events
+NAMED = {CTRL_L: "ctrl l", UP: "up", ESC_KEY: "esc"}
+NAMED_REV = {v: k for k, v in NAMED.items()}
+FRAG_WAIT = 1.0               # complete_wait of sessions that type a key in fragments (seconds)
+
+
 def key_to_py(k):
     """wire key [kind,a,b,c] -> urwid input value"""
     if k[0] == 0:
         return "window resize"
     if k[0] == 1:
-        return "ctrl l" if k[1] == CTRL_L else chr(k[1])
+        return NAMED[k[1]] if k[1] in NAMED else chr(k[1])
     return ("mouse press", k[1], k[2], k[3])
 
 
@@ -52,13 +60,15 @@ def key_from_py(v):
     if v == "window resize":
         return [0, 0, 0, 0]
     if isinstance(v, str):
-        return [1, CTRL_L if v == "ctrl l" else (ord(v) if len(v) == 1 else -1), 0, 0]
+        return [1, NAMED_REV[v] if v in NAMED_REV else (ord(v) if len(v) == 1 else -1), 0, 0]
     if isinstance(v, tuple) and len(v) == 4:
         return [2, v[1], v[2], v[3]]
     return [9, -1, -1, -1]
 
 
 def key_bytes(k):
+    if k[0] == 1 and k[1] == UP:
+        return UP_BYTES
     if k[0] == 1:
         return bytes([k[1]])
     if k[0] == 2:
@@ -209,6 +219,46 @@ def make_widget(S, wc, urwid):
     return type("DuckW", (object,), d)()
 
 
+def make_launcher(S, body, wc, urwid):
+    """PopUpLauncher around the body widget; create_pop_up() hands out the same (cached) pop-up widget each time"""
+    pop_handled = set(wc.get("pop_keys", []))
+
+    class Pop(urwid.Widget):
+        _sizing = frozenset([urwid.BOX])
+        _selectable = True
+        no_cache = ["render"]
+
+        def keypress(self, size, key):
+            k = key_from_py(key)
+            S.cb([T_POPKEY, k[1]])
+            if k[1] == KEY_CLOSE:
+                launcher.close_pop_up()
+                return None
+            return None if k[1] in pop_handled else key
+
+        def render(self, size, focus=False):
+            S.cb([T_RENDER])
+            return urwid.SolidCanvas("P", size[0], size[1])
+
+    class Launcher(urwid.PopUpLauncher):
+        def create_pop_up(self):
+            return pop
+
+        def get_pop_up_parameters(self):
+            return {"left": 1, "top": 1, "overlay_width": 10, "overlay_height": 3}
+
+        def keypress(self, size, key):
+            if key == chr(KEY_OPEN):
+                S.cb([T_KEYPRESS, KEY_OPEN])
+                self.open_pop_up()
+                return None
+            return self._original_widget.keypress(size, key)
+
+    pop = Pop()
+    launcher = Launcher(body)
+    return launcher
+
+
 class Recorder:
     """stands for the terminal: decodes DEC private mode sequences out of what the screen writes"""
     PAT = re.compile(r"\x1b\[\?([0-9;]+)([hl])")
@@ -333,6 +383,8 @@ def run_hook(case):
             S.cb([T_UNHANDLED] + key_from_py(key))
             return bool(cfg["unhandled"])
 
+    if cfg.get("launcher"):
+        w = make_launcher(S, w, case["widget"], urwid)
     ml = urwid.MainLoop(w, screen=scr, event_loop=loop, handle_mouse=bool(cfg.get("handle_mouse", True)),
                         input_filter=filt, unhandled_input=unh, pop_ups=bool(cfg.get("pop_ups")))
     pipes = {}
@@ -358,14 +410,23 @@ def run_hook(case):
             os.write(pipes[ev[1]], bytes([ev[2]]))
         elif k == "file":
             os.write(files[ev[1]][1], b"x")
+        elif k == "frag":
+            # one byte of the escape sequence of 'up'; the previous byte has been read by now
+            os.write(in_w, UP_BYTES[ev[1]:ev[1] + 1])
+        elif k == "sleep":
+            # nothing arrives for longer than complete_wait: a forgotten incomplete-input timer would fire
+            loop.alarm(FRAG_WAIT + 0.25, lambda: None)
 
     rounds = [list(r) for r in case["rounds"]]
+    if any(ev[0] == "frag" for r in rounds for ev in r):
+        scr.set_input_timeouts(complete_wait=FRAG_WAIT)
     state = {"i": 0}
 
     def injector():
         # the idle callbacks are through: the loop is about to wait.  Does the terminal show the widget?
         tr.append([T_WAIT])
-        S.shown.append(1 if grid.shows(["S%d" % S.wstate]) else 0)
+        if not cfg.get("launcher"):          # (what an open pop-up looks like is not judged)
+            S.shown.append(1 if grid.shows(["S%d" % S.wstate]) else 0)
         i = state["i"]
         state["i"] += 1
         if i < len(rounds):
@@ -413,9 +474,9 @@ def run_hook(case):
     final, started, cbreak = observe()
     ntrace, nshown, ncb1 = len(tr), len(S.shown), S.n
     second = None
-    if cfg.get("second_run") and out == ["ok"]:
-        # run() once more on the same MainLoop and Screen: nothing is scripted, the harness quits at the
-        # first wait.  No fault is planned for it.
+    if cfg.get("second_run") and out[0] in ("ok", "exc"):
+        # run() once more on the same MainLoop and Screen (also after a session that ended with an exception the
+        # application caught): nothing new is scripted, the harness quits at the first wait.  No fault is planned.
         S.plan = {}
         if "h" in state:
             loop.remove_enter_idle(state.pop("h"))
@@ -560,7 +621,7 @@ PTY_KEYS = [[1, 97, 0, 0], [1, 98, 0, 0], [2, 1, 3, 2], [1, 99, 0, 0]]      # 'a
 PTY_REDRAW = [1, CTRL_L, 0, 0]           # typed later, on its own: the widget does not change
 LOOPS = ["select", "asyncio", "tornado", "trio", "twisted", "zmq"]
 PTY_SAFETY = 8.0          # seconds; a complete session takes about 0.1 s
-RERUNNABLE = ("select", "asyncio", "zmq", "trio")     # loops whose run() may be entered a second time
+RERUNNABLE = ("select", "asyncio", "zmq", "trio", "tornado")     # loops whose run() may be entered a second time
 
 
 def make_loop(name, urwid):
@@ -641,20 +702,42 @@ def run_pty(case):
     nkeys_seen = [0]
     pipe_fd = [None]
 
+    frag = {"on": bool(case.get("frag")), "i": -1}
+    if frag["on"]:
+        scr.set_input_timeouts(complete_wait=FRAG_WAIT)
+    n1 = len(keys)
+
     def filt(ks, raw):
         kk = [key_from_py(k) for k in ks]
+        real = [k for k in kk if k[0] != 0]
         before = nkeys_seen[0]
-        nkeys_seen[0] += len([k for k in kk if k[0] != 0])
+        nkeys_seen[0] += len(real)
+        now = nkeys_seen[0]
+        if phase["second"]:
+            return ks
+        if before < n1 + 1 <= now:
+            phase["judge"] = True          # the redraw key is in this batch
         try:
             S.cb([T_FILTER, len(kk)] + [x for k in kk for x in k])
         finally:
-            # the next step of the chain starts once the whole input has gone through MainLoop
-            if before < len(keys) <= nkeys_seen[0] and pipe_fd[0] is not None:
+            # the next step of the chain starts once the previous input has gone through MainLoop
+            if before < n1 <= now and pipe_fd[0] is not None:
                 fd, pipe_fd[0] = pipe_fd[0], None
                 # (a real delay: the loop redraws and waits before the chain goes on)
                 ml.set_alarm_in(0.01, lambda l, d: os.write(fd, b"P"))
-            elif nkeys_seen[0] > len(keys):
-                ml.set_alarm_in(0.01, alarm2)
+            elif before < n1 + 1 <= now:
+                if frag["on"]:
+                    frag["i"] = 0
+                    os.write(master, UP_BYTES[0:1])       # 'up', one byte per read
+                else:
+                    ml.set_alarm_in(0.01, alarm2)
+            elif frag["on"] and not real and 0 <= frag["i"] < len(UP_BYTES) - 1:
+                # the incomplete sequence was read (MainLoop got an empty batch): the next byte arrives
+                frag["i"] += 1
+                os.write(master, UP_BYTES[frag["i"]:frag["i"] + 1])
+            elif before < n1 + 2 <= now:
+                # keep the session alive for longer than complete_wait: a forgotten timer would deliver 'esc'
+                ml.set_alarm_in(FRAG_WAIT + 0.25, alarm2)
         return ks
 
     def unh(key):
@@ -664,19 +747,38 @@ def run_pty(case):
     ml = urwid.MainLoop(w, screen=scr, event_loop=loop, handle_mouse=bool(cfg.get("handle_mouse", True)),
                         input_filter=filt, unhandled_input=unh, pop_ups=bool(cfg.get("pop_ups")))
 
+    phase = {"second": False, "judge": False, "h": None}
+
+    def after_idle():
+        # runs right after MainLoop.entering_idle in every idle round: the loop is about to wait.
+        # Judged after the redraw key (first run) and throughout the second run.
+        if phase["judge"]:
+            drain()
+            S.shown.append(1 if grid.shows(["S%d" % S.wstate]) else 0)
+
+    def watch_idle(l=None, d=None):
+        # (registered from inside the loop, i.e. after MainLoop.start() registered its own idle callback)
+        if phase["h"] is not None:
+            loop.remove_enter_idle(phase["h"])
+        phase["h"] = loop.enter_idle(after_idle)
+
     def alarm2(l, d):
-        # the loop has waited since the redraw key: what does the terminal show now?
-        drain()
-        S.shown.append(1 if grid.shows(["S%d" % S.wstate]) else 0)
+        if phase["second"]:
+            return                 # left over from the first run
         S.cb([T_ALARM, 2])
         tr.append([T_QUIT])
         raise urwid.ExitMainLoop()
 
     def pcb(data):
+        if phase["second"]:
+            return
         S.cb([T_PIPE, 1, data[0] if data else -1])
         os.write(master, key_bytes(PTY_REDRAW))
 
     def alarm1(l, d):
+        if phase["second"]:
+            return
+        watch_idle()
         S.cb([T_ALARM, 1])
         os.write(master, b"".join(key_bytes(k) for k in keys))
     pipe_fd[0] = ml.watch_pipe(pcb)
@@ -684,6 +786,8 @@ def run_pty(case):
     flags = {"safety": 0}
 
     def safety(l, d):
+        if phase["second"]:
+            return
         # the chain broke (a callback's exception was swallowed, input got lost ...): end the session
         flags["safety"] = 1
         tr.append([T_QUIT])
@@ -713,14 +817,15 @@ def run_pty(case):
     final, started, modes, tios_ok = observe()
     ntrace, ncb1, shown1 = len(tr), S.n, list(S.shown)
     second = None
-    if case.get("second_run") and out == ["ok"] and case["loop"] in RERUNNABLE:
-        # run() once more on the same MainLoop and Screen; nothing but a final alarm
+    if case.get("second_run") and out[0] in ("ok", "exc") and case["loop"] in RERUNNABLE:
+        # run() once more on the same MainLoop and Screen (also after a session that ended with an exception
+        # the application caught); nothing but a final alarm raising ExitMainLoop
         S.plan = {}
+        phase["second"] = phase["judge"] = True
 
         def alarm3(l, d):
-            drain()
-            S.shown.append(1 if grid.shows(["S%d" % S.wstate]) else 0)
             raise urwid.ExitMainLoop()
+        ml.set_alarm_in(0, watch_idle)
         ml.set_alarm_in(0.05, alarm3)
         out2 = ["ok"]
         try:
@@ -755,19 +860,20 @@ def replay_modes(trace):
     return modes
 
 
-CB_TAGS = {T_FILTER, T_KEYPRESS, T_MOUSE, T_UNHANDLED, T_ALARM, T_PIPE, T_FILE, T_RENDER}
-ORDER_TAGS = {T_FILTER, T_KEYPRESS, T_MOUSE, T_UNHANDLED, T_ALARM, T_PIPE, T_FILE}
+CB_TAGS = {T_FILTER, T_KEYPRESS, T_MOUSE, T_UNHANDLED, T_ALARM, T_PIPE, T_FILE, T_RENDER, T_POPKEY}
+ORDER_TAGS = {T_FILTER, T_KEYPRESS, T_MOUSE, T_UNHANDLED, T_ALARM, T_PIPE, T_FILE, T_POPKEY}
 PYERR = {1: "AttributeError", 2: "RuntimeError"}
 CB_NAMES = {T_FILTER: "input filter", T_KEYPRESS: "widget keypress", T_MOUSE: "widget mouse_event",
             T_UNHANDLED: "unhandled_input", T_ALARM: "alarm", T_PIPE: "watch_pipe", T_FILE: "watch_file",
-            T_RENDER: "idle redraw / widget render"}
+            T_RENDER: "idle redraw / widget render", T_POPKEY: "pop-up widget keypress"}
 
 
 def expected_for_keys(cfg, wc, keys):
     """what the property demands for one batch of input: list of (item, optional) in order"""
     out = []
     if cfg.get("filter") is not None:
-        out.append(([T_FILTER, len(keys)] + [x for k in keys for x in k], False))
+        # (whether an empty batch - an incomplete escape sequence - is shown to the filter is not demanded)
+        out.append(([T_FILTER, len(keys)] + [x for k in keys for x in k], not keys))
         keys = [k for k in keys if not (k[0] == 1 and k[1] in cfg["filter"])]
     wkeys = {int(k): v for k, v in wc.get("keys", {}).items()}
     for k in keys:
@@ -793,17 +899,45 @@ def expected_for_keys(cfg, wc, keys):
     return out
 
 
+def expected_with_popup(cfg, wc, keys, st):
+    """a batch of keys when a PopUpLauncher is in the tree: the open pop-up is the topmost widget"""
+    out = []
+    if cfg.get("filter") is not None:
+        out.append(([T_FILTER, len(keys)] + [x for k in keys for x in k], not keys))
+        keys = [k for k in keys if not (k[0] == 1 and k[1] in cfg["filter"])]
+    for k in keys:
+        if k[0] != 1:
+            continue
+        if st["open"]:
+            out.append(([T_POPKEY, k[1]], False))
+            if k[1] == KEY_CLOSE:
+                st["open"] = False
+            elif k[1] not in wc.get("pop_keys", []) and cfg.get("unhandled") is not None:
+                out.append(([T_UNHANDLED] + k, k[1] == CTRL_L))
+        elif k[1] == KEY_OPEN:
+            out.append(([T_KEYPRESS, KEY_OPEN], False))
+            st["open"] = True
+        else:
+            out += [x for x in expected_for_keys(dict(cfg, filter=None), wc, [k])]
+    return out
+
+
 def expected_rounds(case):
     """per scripted round: the callbacks the property demands, in order"""
     cfg, wc = case["cfg"], case["widget"]
     rounds = []
+    popup = {"open": False}
     if case["kind"] == "hook":
         rounds.append([([T_ALARM, i], False) for i in cfg.get("pre_alarms", [])])
         for r in case["rounds"]:
             exp = []
             for ev in r:
-                if ev[0] == "in":
+                if ev[0] == "in" and cfg.get("launcher"):
+                    exp += expected_with_popup(cfg, wc, ev[1], popup)
+                elif ev[0] == "in":
                     exp += expected_for_keys(cfg, wc, ev[1])
+                elif ev[0] == "frag":
+                    exp += expected_for_keys(cfg, wc, [] if ev[1] < len(UP_BYTES) - 1 else [[1, UP, 0, 0]])
                 elif ev[0] == "resize":
                     exp += expected_for_keys(cfg, wc, [[0, 0, 0, 0]])
                 elif ev[0] == "alarm":
@@ -877,6 +1011,9 @@ class C12(core.Check):
             "planned faults; the fault kinds are ExitMainLoop, an Exception subclass and a BaseException subclass; a third of "
             "the raw-screen sessions run() a second time on the same loop and screen; at every wait the bytes written so far, "
             "decoded by a small terminal, must show the widget state (Screen.clear() garbles that terminal: forced repaint); "
+            "a key typed one byte per read inside complete_wait followed by silence (no phantom 'esc'); pop_ups=True with a "
+            "PopUpLauncher whose pop-up widget is cached: open / close / open again x every fault index (oracle only: the open "
+            "pop-up is the topmost widget); second run() also after a first run that ended with a propagated exception; "
             "kind pty: real screen on a pty x each installed event loop x fault at callback indices of a fixed "
             "chained session (keys, mouse, pipe, the redraw key ctrl l, second run()).  non-trivial = at least one user callback was invoked; distinct by hash of (case, outcome)")
     trusted_base = [
@@ -1005,8 +1142,8 @@ class C12(core.Check):
 
     # ---------- model wire format ----------
     def encode(self, case):
-        if case["kind"] == "pty":
-            return None
+        if case["kind"] == "pty" or case["cfg"].get("launcher"):
+            return None              # (pop-up open / close sessions are judged by the oracle only)
         cfg, wc = case["cfg"], case["widget"]
         b = lambda x: 1 if x else 0      # noqa: E731
         l = [b(case["kind"] == "hook")]
@@ -1027,8 +1164,11 @@ class C12(core.Check):
         if case["kind"] == "hook":
             l.append(len(case["rounds"]))
             for r in case["rounds"]:
-                l.append(len(r))
+                l.append(len([ev for ev in r if ev[0] != "sleep"]))
                 for ev in r:
+                    if ev[0] == "frag":
+                        # an incomplete sequence reaches MainLoop as an empty batch, the last byte completes 'up'
+                        l += [1, 0] if ev[1] < len(UP_BYTES) - 1 else [1, 1, 1, UP, 0, 0]
                     if ev[0] == "in":
                         l += [1, len(ev[1])] + [x for k in ev[1] for x in k]
                     elif ev[0] == "resize":
@@ -1073,7 +1213,7 @@ class C12(core.Check):
         # a second run() on the same loop and screen behaves like the first
         shown = [1] * sum(1 for t in trace if t == [T_WAIT])
         second = None
-        if case["kind"] == "hook" and case["cfg"].get("second_run") and out == ["ok"]:
+        if case["kind"] == "hook" and case["cfg"].get("second_run") and out[0] in ("ok", "exc"):
             normal = dict({v: 0 for v in MODES.values()}, cursor=1, plain=0, cbreak=0)
             second = {"out": ["ok"], "shown": [1], "started": False, "sig": list(case["cfg"].get("sig", [0, 0, 0])),
                       "term": normal}
@@ -1159,7 +1299,7 @@ class C12(core.Check):
             if sec is not None:
                 if sec["out"] != ["ok"]:
                     msgs.append(f"second run() on the same MainLoop and Screen: {sec['out']}")
-                elif not sec["shown"] or not all(sec["shown"]):
+                elif not all(sec["shown"]):
                     msgs.append("second run() on the same MainLoop and Screen: the loop waited but the terminal does not "
                                 "show the widget state (nothing was painted into the fresh alternate buffer)")
                 bad2 = [k for k, v in sorted(sec["term"].items()) if v != (1 if k == "cursor" else 0)]
@@ -1177,7 +1317,7 @@ class C12(core.Check):
         if sec is not None:
             if sec["out"] != ["ok"]:
                 msgs.append(f"second run() on the same MainLoop and Screen: {sec['out']}")
-            if not all(sec["shown"]) or not sec["shown"]:
+            if not cfg.get("launcher") and (not all(sec["shown"]) or not sec["shown"]):
                 msgs.append("second run() on the same MainLoop and Screen: the loop waits but the terminal does not show "
                             "the widget state (nothing was painted into the fresh alternate buffer)")
             bad2 = [k for k, v in sorted(sec["term"].items()) if v != (1 if k == "cursor" else 0)]
@@ -1250,7 +1390,7 @@ class C12(core.Check):
         """batching over a pty is the kernel's business: check per batch, keys in arrival order"""
         msgs = []
         cfg, wc = case["cfg"], case["widget"]
-        keys = case.get("keys", PTY_KEYS) + [PTY_REDRAW]
+        keys = case.get("keys", PTY_KEYS) + [PTY_REDRAW] + ([[1, UP, 0, 0]] if case.get("frag") else [])
         tr = [t for t in res["trace"] if t[0] in ORDER_TAGS]
         cfg2 = dict(cfg, filter=[], unhandled=0)
         seen = 0
@@ -1304,7 +1444,8 @@ class C12(core.Check):
                 tr = [t for t in res.get("trace", []) if t[0] in CB_TAGS]
                 if int(k) < len(tr):
                     inc("fault_at:" + {T_FILTER: "filter", T_KEYPRESS: "keypress", T_MOUSE: "mouse", T_UNHANDLED: "unhandled",
-                                       T_ALARM: "alarm", T_PIPE: "pipe", T_FILE: "file", T_RENDER: "render"}[tr[int(k)][0]])
+                                       T_ALARM: "alarm", T_PIPE: "pipe", T_FILE: "file", T_RENDER: "render",
+                                       T_POPKEY: "popup_keypress"}[tr[int(k)][0]])
         cfg = case["cfg"]
         for f in ("pop_ups", "prestarted", "paste", "focus", "tty"):
             if cfg.get(f):
@@ -1318,6 +1459,10 @@ class C12(core.Check):
         fired = [int(k) for k in plan if int(k) < res.get("ncb", 0)]
         if case["kind"] == "pty" and fired and min(fired) != res.get("ncb", 0) - 1:
             inc("obs:callbacks_after_the_fault:" + case["loop"])
+        if cfg.get("launcher"):
+            inc("pop_up_open_close_sessions")
+        if case.get("frag") or any(ev[0] == "frag" for r in case.get("rounds", []) for ev in r):
+            inc("sessions_with_key_typed_in_fragments")
         if cfg.get("pop_ups") and not case["widget"].get("has_mouse", True):
             inc("obs:pop_ups_around_widget_without_mouse_event")
         # observation, not demanded by the property text: after an exception other than ExitMainLoop
@@ -1345,6 +1490,11 @@ class C12(core.Check):
 
     def with_faults(self, base, kinds=(0, 7, BASE_EXC + 7), step=1):
         yield dict(base, plan={})
+        if base["cfg"].get("launcher"):
+            for i in range(0, 70):
+                for f in (0, 7):
+                    yield dict(base, plan={str(i): f})
+            return
         for i in range(0, self.ncb_estimate(base), step):
             for f in kinds:
                 yield dict(base, plan={str(i): f})
@@ -1371,6 +1521,35 @@ class C12(core.Check):
             for ci, cfg in enumerate(cfgs):
                 for wi, w in enumerate(self.WIDGETS):
                     yield {"kind": "hook", "cfg": dict(cfg), "widget": w, "rounds": s}
+
+    def base_popup_cases(self):
+        """pop_ups=True with a PopUpLauncher whose pop-up widget is cached: open, close, open again"""
+        K = lambda c: [1, c, 0, 0]      # noqa: E731,N806
+        o, x, k, j = K(KEY_OPEN), K(KEY_CLOSE), K(107), K(106)
+        scripts = [
+            [[["in", [o, k]]], [["in", [x, k]]], [["in", [o]]], [["in", [k, j, x]]], [["in", [k]]]],
+            [[["in", [o, k, x, k, o, j, x, j]]]],
+            [[["in", [k]]], [["in", [o]], ["alarm", 3]], [["resize"]], [["in", [x]]], [["in", [o]]], [["in", [k]]], [["in", [x, o, k]]]],
+        ]
+        cfgs = [
+            {"filter": [], "unhandled": 0, "handle_mouse": False, "pop_ups": True, "launcher": True},
+            {"filter": None, "unhandled": None, "handle_mouse": True, "pop_ups": True, "launcher": True, "second_run": True},
+        ]
+        w = {"selectable": True, "has_mouse": True, "keys": {"106": 0}, "mouse": [], "cursor": False, "pop_keys": [107]}
+        for sc in scripts:
+            for cfg in cfgs:
+                yield {"kind": "hook", "cfg": dict(cfg), "widget": w, "rounds": sc}
+
+    def base_frag_cases(self):
+        """'up' typed one byte per read (three reads inside complete_wait), then nothing for longer than complete_wait"""
+        K = lambda c: [1, c, 0, 0]      # noqa: E731,N806
+        fr = [[["frag", 0]], [["frag", 1]], [["frag", 2]], [["sleep"]]]
+        yield {"kind": "hook", "cfg": {"filter": [], "unhandled": 0, "handle_mouse": False, "pop_ups": False},
+               "widget": self.WIDGETS[0], "rounds": [[["in", [K(97)]]]] + fr + [[["in", [K(98)]]]]}
+        yield {"kind": "hook", "cfg": {"filter": None, "unhandled": 1, "handle_mouse": True, "pop_ups": True, "tty": True},
+               "widget": self.WIDGETS[1], "rounds": fr + fr}
+        yield {"kind": "hook", "cfg": {"filter": [], "unhandled": None, "handle_mouse": True, "pop_ups": False},
+               "widget": self.WIDGETS[2], "rounds": [[["frag", 0]], [["frag", 1]], [["alarm", 4]], [["frag", 2]], [["sleep"]]]}
 
     def base_plain_cases(self):
         K = lambda c: [1, c, 0, 0]      # noqa: E731,N806
@@ -1475,7 +1654,7 @@ class C12(core.Check):
         for cfg in cfgs:
             for name in loops:
                 base = {"kind": "pty", "loop": name, "cfg": cfg, "widget": w, "second_run": True}
-                yield dict(base, plan={})
+                yield dict(base, plan={}, frag=True)
                 nmax = 32 if cfg.get("pop_ups") else 24
                 step = 1 if (tier == "thorough" or name in ("select", "asyncio")) else 2
                 for i in range(0, nmax, step):
@@ -1502,6 +1681,10 @@ class C12(core.Check):
             yield from self.with_faults(base, step=1 if tier == "thorough" else 1)
         for base in self.base_plain_cases():
             yield from self.with_faults(base)
+        for base in self.base_popup_cases():
+            yield from self.with_faults(base)
+        for base in self.base_frag_cases():
+            yield dict(base, plan={})
         for base in ({"kind": "hook", "cfg": {"filter": [], "unhandled": 0, "pop_ups": False}, "widget": self.DUCK,
                       "rounds": [[["in", [[1, 98, 0, 0], [2, 1, 1, 1]]]]]},):
             yield from self.with_faults(base)
@@ -1514,7 +1697,8 @@ class C12(core.Check):
             yield self.random_case(rng)
 
     def shrink_candidates(self, case):
-        if case["kind"] == "hook":
+        has_frag = any(ev[0] == "frag" for r in case.get("rounds", []) for ev in r)
+        if case["kind"] == "hook" and not has_frag:      # (the bytes of a fragmented key belong together)
             rs = case["rounds"]
             for i in range(len(rs)):
                 if len(rs) > 1:
